@@ -347,6 +347,9 @@ Proof.
   - (* buildinit *)
     rewrite (proj2 (snap_wf_iff _) W), table_eqb_refl. cbn [negb].
     split; [exact CO|]. split; [apply (proj2 SAME)|reflexivity].
+  - (* clone *)
+    rewrite (proj2 (snap_wf_iff _) W), table_eqb_refl. cbn [negb].
+    split; [exact CO|]. split; [apply (proj2 SAME)|reflexivity].
 Qed.
 
 Definition code_fine (c : N) : Prop := c = 0 \/ c = 2 \/ c = 3.
